@@ -103,7 +103,12 @@ def r2(ctx, prog):
                 if a0['k'] == 'DeclRefExpr' and a0.get('d') in crlf_vars and a1.get('cv') == 2 and exc.npos_guarded(f, p, a0['d']):
                     ok, why = True, 'past a found CRLF'
             elif r['k'] == 'DeclRefExpr' and r.get('n') == 'data_size':
-                ok, why = True, 'to the end of the data'
+                # only the body stage of a request without Content-Length takes everything that arrived
+                g = [c for c, br in q.lexical_guards(f, st['i']) if br == 'else' and any(x.endswith('content_length_') for x in q.subtree_fields(f, c))]
+                if g:
+                    ok, why = True, 'to the end of the data (body without Content-Length)'
+                else:
+                    why = 'to the end of the data outside the no-Content-Length body branch'
         elif st['op'] == '+=':
             r = f.s(f.strip_casts(st['ch'][1]))
             if r.get('cv') == 2:
@@ -210,7 +215,7 @@ def r5(ctx, prog):
         ctx.ob('C12.R5', '%s|send-then-advance' % c.name, ok, 'every send is followed by exactly the res_index increment before the next send', where=c.loc(s['i']))
     for i in incs:
         ip = q.pt(c, i)
-        ok = not c.cfg.exists_path(ip, ip, avoid=q.pts(c, sends))
+        ok = not any(c.cfg.exists_path(ip, q.pt(c, j), avoid=q.pts(c, sends)) for j in incs)
         ctx.ob('C12.R5', '%s|advance-per-send' % c.name, ok, 'res_index is not advanced twice without a send in between', where=c.loc(i['i']))
     # direct send only when index == res_index
     first = sorted(sends, key=lambda s: s['l'])[0]
